@@ -446,11 +446,39 @@ func (i *interpreter) mapFind(fr *frame, m *omap, key value) int {
 	return -1
 }
 
+// guardCheck enforces the lock discipline registered with rt.Guard for a map: reads need the
+// mutex held (read or write) by the executing goroutine, writes need it write-held.
+func (i *interpreter) guardCheck(m *omap, write bool) {
+	if m == nil || len(i.guards) == 0 {
+		return
+	}
+	g, ok := i.guards[m]
+	if !ok {
+		return
+	}
+	mu := i.mutexOf(g.mu)
+	cur := i.sch.cur
+	okLock := mu.writer == cur || (!write && mu.readers[cur] > 0)
+	if !okLock {
+		what := "read"
+		if write {
+			what = "write"
+		}
+		i.ex.fail("race", g.id+"-"+what+"-without-lock", fmt.Sprintf("map %s by goroutine %d (%s) without the %s lock", what, cur.id, cur.name, map[bool]string{true: "write", false: "read/write"}[write]), i.ex.modelOrNil())
+	}
+}
+
+type guard struct {
+	mu *value
+	id string
+}
+
 func (i *interpreter) lookup(fr *frame, instr *ssa.Lookup, x, idx value) value {
 	m, ok := x.(*omap)
 	if !ok {
 		panic(fmt.Sprintf("unexpected x type in Lookup: %T", x))
 	}
+	i.guardCheck(m, false)
 	var v value
 	j := i.mapFind(fr, m, idx)
 	found := j >= 0
@@ -466,6 +494,7 @@ func (i *interpreter) lookup(fr *frame, instr *ssa.Lookup, x, idx value) value {
 }
 
 func (i *interpreter) mapInsert(fr *frame, m *omap, key, v value) {
+	i.guardCheck(m, true)
 	if j := i.mapFind(fr, m, key); j >= 0 {
 		m.vals[j] = v
 		return
@@ -478,6 +507,7 @@ func (i *interpreter) mapDelete(fr *frame, m *omap, key value) {
 	if m == nil {
 		return
 	}
+	i.guardCheck(m, true)
 	if j := i.mapFind(fr, m, key); j >= 0 {
 		m.keys = append(m.keys[:j:j], m.keys[j+1:]...)
 		m.vals = append(m.vals[:j:j], m.vals[j+1:]...)
